@@ -7,6 +7,7 @@ A scenario is a list of exchanges, each a vector of classes (method, version, UR
 body, status, response header set, Content-Length presence, response body, content coding).  The harness builds real
 HTTPFlows from the classes (seeded representatives), exports them with make_har, serialises with json.dumps exactly
 as SaveHar.export_har does, reads the bytes back with FlowReader and projects the original and the imported flows:
+  ts     request start time of the original flow, seconds after a base time (exp events only; witnesses only)
   m      request method (string)                  ver    request HTTP version (string)
   url    id of (scheme, host, port, path)         st     response status code
   reqh   request header fields WITHOUT Content-Length fields, as [name id, value id, tag] in order (tag "h" = Host)
@@ -291,10 +292,18 @@ def run_scenario(sc):
     rng = random.Random(sc["seed"])
     rows = sc["rows"]
     flows = [build_flow(r, i + 1, rng) for i, r in enumerate(rows)]
+    # request start times (seconds after the base time): the list handed to make_har is in general NOT in start order
+    # (hardump collects flows in completion order, views are sorted / filtered by the user).  Default = the model's
+    # rule: the list is newest first.
+    starts = sc.get("starts") or [(len(rows) - j) * 10 for j in range(1, len(rows) + 1)]
+    for f, off in zip(flows, starts):
+        for msg in (f.request, f.response):
+            msg.timestamp_start += off
+            msg.timestamp_end += off
     projs = [FlowProj() for _ in flows]
     trace = []
     for i, (f, p, r) in enumerate(zip(flows, projs, rows)):
-        trace.append({"k": "exp", "i": i + 1, **p.project(f), "c": {d: str(r[d]) for d in DIMS}})
+        trace.append({"k": "exp", "i": i + 1, **p.project(f), "ts": int(starts[i]), "c": {d: str(r[d]) for d in DIMS}})
         p.freeze()
     try:
         har = json.dumps(SaveHar().make_har(flows), indent=4).encode()
@@ -376,7 +385,7 @@ class Check(core.PropertyCheck):
                           "utf8_nocharset", "json", "empty", "invalid_utf8_declared", "invalid_utf8_html", "latin1", "utf8", "form",
                           "dup", "mixedcase", "host",
                           "setcookies", "location", "cl", "nocl", "escaped", "query", "https_default", "http_port",
-                          "body_method_with_body", "list", "done")
+                          "body_method_with_body", "list", "list_not_in_start_order", "done")
     REQUIRED_ACTIONS = ("Add", "Export", "Import")
     ASSUMPTIONS = (
         "flows are built by the harness from class vectors with seeded representatives; request Content-Length fields "
@@ -443,7 +452,8 @@ class Check(core.PropertyCheck):
                     r.update(ver=rng.choice(["HTTP/1.1", "HTTP/3"]), coding="identity", clen="cl", reqh=rng.choice(REQH),
                              respb=rng.choice(RESPB))
                 rows.append(normalise(r))
-            yield core.Scenario({"rows": rows, "seed": rng.randrange(1 << 30)}, source="random")
+            starts = [rng.choice([0, 10, 20, 30, 40, 50]) for _ in rows]  # any order, ties included
+            yield core.Scenario({"rows": rows, "seed": rng.randrange(1 << 30), "starts": starts}, source="random")
 
     def execute(self, sc):
         return run_scenario(sc)
